@@ -360,6 +360,28 @@ theorem compile_meets_optimize_hypotheses (t : Template) (c : Compiled)
       exact key _
     · exact key _
 
+/-- **T3, after the optimisation pass** `compile_end_ip_pos_optimized`: for every template (no
+hypothesis on the AST), every chunk the compiler produces and whatever `Chunk::optimize` returns
+for it, the operand of every `Iterate` of the OPTIMISED chunk is positive too — the `end_ip != 0`
+hypothesis of the loop-bookkeeping theorems of Props/C03.lean (`set_in_loop_is_iteration_local`,
+…) holds for the code that is actually interpreted.  (T3 for the compiled chunk, T5 for
+`TargetsInRange`, `C09.jumps_land_same` for what `index_map[t]` is.) -/
+theorem compile_end_ip_pos_optimized (t : Template) (c : Compiled) (hc : compileTemplate t = .ok c)
+    (enc : Enc) :
+    ∀ ch ∈ c.chunks, ∀ r, Optimize.optimize (toEntries enc ch) = .ok r →
+      ∀ e ∈ r, ∀ target, e.1 = .iterate target → 0 < target := by
+  intro ch hch r hr
+  have h5 := compile_meets_optimize_hypotheses t c hc enc ch hch
+  have h3 := compile_end_ip_pos t c hc ch hch
+  refine optimize_keeps_iterate_pos _ r hr h5.1 ?_
+  intro e he tt hte
+  simp only [toEntries, List.mem_map] at he
+  obtain ⟨y, hy, rfl⟩ := he
+  refine h3 y hy tt ?_
+  obtain ⟨i, b⟩ := y
+  cases i <;> simp [CInstr.toInstr] at hte ⊢
+  exact hte
+
 /-! ## T6: the mutable pass of compiler.rs and the functional model agree -/
 
 /-- **T6** `compile_imperative_agrees`.  Model/CompilerImp.lean transcribes compiler.rs as the
